@@ -195,6 +195,14 @@ pub fn run(tier: &str, seed: u64, dir: &str) {
             sink.case(&op, &eval(&op), if uplinks > 200 { "long-history" } else { "history" }, true);
         }
     }
+    // builder X — uplink-typed frames of the session (the device's own uplink echoed back octet for octet, and one
+    // rebuilt at the next fresh downlink counter) in RX1 / RX2 / RXC: not frames for an end-device, whatever their MIC
+    for region in REGIONS {
+        for k in 0..(if thorough { 144 } else { 24 }) {
+            let op = uplink_echo_history("C12", &mut rng, region, k);
+            sink.case(&op, &eval(&op), "uplink-echo", true);
+        }
+    }
     // device level: both front-ends with the scripted radio (see adevgen::add_dev_classes)
     crate::adevgen::add_dev_classes("C12", &mut rng, &mut sink, thorough, eval);
     sink.finish(dir, "per region: histories of 20..400 uplinks with rare accepted (confirmed/unconfirmed) and rejected downlinks, ADR toggles and application data-rate overrides, sessions restored with ADR counters at 0/60/63/64/95/96/127/200; every uplink header and data rate is compared with a 5-field reference automaton (ack owed, ADR on, uplinks since last accepted downlink, data rate, address). Non-trivial = every case.", false, serde_json::json!({}));
